@@ -117,12 +117,15 @@ Proof.
 Qed.
 
 (* a member whose id is kept or zeroed and whose phase / focus stay: ids only shrink; an entry is lost only if zeroed *)
+Lemma focus_of_nj : forall m, m_ph m <> PJoinSent -> focus_of m = 0.
+Proof. intros m H. unfold focus_of. destruct (m_ph m); try reflexivity. congruence. Qed.
+
 Lemma probe_ids : forall c m m' (s : idsrc), wf_c c = true -> m_live m = true -> m_live m' = true -> s <> SFocus ->
-  m_id m' = idval m 0 s -> m_ph m' = m_ph m -> m_focus m' = m_focus m -> m_ph m <> PJoinSent ->
+  m_id m' = idval m 0 s -> m_ph m <> PJoinSent -> m_ph m' <> PJoinSent ->
   (forall x, has_id m' x -> has_id m x) /\ dkc c m m' <= dk_of (absm c m) (is_zero s) false.
 Proof.
-  intros c m m' s Hc L L' Hs Hid Hp Hf Hnj. split.
-  - intros x [Hx H]. split; [exact Hx|]. unfold focus_of in *. rewrite Hp, Hf in H. destruct H as [H|H]; [|right; exact H].
+  intros c m m' s Hc L L' Hs Hid Hnj Hnj'. split.
+  - intros x [Hx H]. split; [exact Hx|]. rewrite (focus_of_nj m' Hnj') in H. destruct H as [H|H]; [|congruence].
     left. rewrite Hid in H. destruct s; cbn [idval] in H; congruence.
   - apply dkc_le; [exact Hc | exact L | | intros P; contradiction].
     intros Hb. destruct s; [|reflexivity|contradiction]. exfalso. cbn [idval] in Hid.
@@ -165,8 +168,8 @@ Proof.
   destruct (good_parts _ _ _ _ H) as (L' & _).
   destruct (recv_hb_fields code m) as (Fid & Fph & Ffo & Fnm).
   destruct (probe_ids c m (F m) (src_of false (heartbeatDispatch code)) Hwc L L') as [Hids Hdk]; try assumption.
-  { apply src_nojr. discriminate. } { rewrite Hp. discriminate. }
-  apply (local_same c ms i m F _ real Hinv G L); try assumption.
+  { apply src_nojr. discriminate. } { rewrite Hp. discriminate. } { unfold F. rewrite Fph, Hp. discriminate. }
+  apply (local_same c ms i m F (dk_of (absm c m) (is_zero (src_of false (heartbeatDispatch code))) false) real Hinv G L); try assumption.
   intros m0. apply (recv_hb_fields code m0).
 Qed.
 
@@ -186,7 +189,97 @@ Proof.
   destruct (good_parts _ _ _ _ H) as (L' & _).
   destruct (recv_cm_fields code m) as (Fid & Fph & Ffo & Fnm).
   destruct (probe_ids c m (F m) (src_of false (commitDispatch code)) Hwc L L') as [Hids Hdk]; try assumption.
-  { apply src_nojr. discriminate. } { rewrite Hp. discriminate. }
-  apply (local_same c ms i m F _ real Hinv G L); try assumption.
+  { apply src_nojr. discriminate. } { rewrite Hp. discriminate. } { unfold F. rewrite Fph, Hp. discriminate. }
+  apply (local_same c ms i m F (dk_of (absm c m) (is_zero (src_of false (commitDispatch code))) false) real Hinv G L); try assumption.
   intros m0. apply (recv_cm_fields code m0).
+Qed.
+
+(* ---- LRecv of a SyncGroup reply ---- *)
+Lemma recv_sync_fields : forall code m,
+  let m' := recv_sync code m in
+  let s := if has ASuccess (syncDispatch code) then SSame else src_of false (syncDispatch code) in
+  m_id m' = idval m 0 s /\ m_ph m' = PIdle /\ m_name m' = m_name m /\ s <> SFocus.
+Proof.
+  intros code m. cbv zeta. unfold recv_sync. destruct (has ASuccess (syncDispatch code)).
+  - repeat split; try reflexivity. discriminate.
+  - cbn [m_id m_ph m_name set_ph]. rewrite (react_id false 0); [|reflexivity].
+    destruct (react_keeps 0 (syncDispatch code) (set_inbox None m)) as (_ & _ & C & _). rewrite C.
+    assert (S : src_of false (syncDispatch code) <> SFocus) by (apply src_nojr; discriminate).
+    destruct (src_of false (syncDispatch code)); repeat split; try reflexivity; try assumption.
+Qed.
+
+Lemma case_recvsync : forall c ms i m code, inv_facts c ms -> getm i ms = Some m -> m_live m = true ->
+  m_ph m = PSyncSent -> m_inbox m = Some (RpSync code) ->
+  let F := recv_sync code in
+  inv_facts c (updm i F ms) /\ mu_behaves true (mkS c ms) (mkS c (updm i F ms)).
+Proof.
+  intros c ms i m code Hinv G L Hp Hib F. get_facts Hinv G. pose proof (wf_c_zfacts c Hwc) as Z.
+  pose proof (use_check pre_recvsync chk_recvsync c m ok_recvsync Hwc L Hwm) as H.
+  assert (P : fin_of pre_recvsync (absm c m) = true).
+  { unfold fin_of, pre_recvsync. fold (fin_of pre_wf (absm c m)). rewrite (wf_pre_m _ _ L Hwm). unfold absm, ib_of. pcbn.
+    rewrite Hp, Hib. reflexivity. }
+  specialize (H P). unfold chk_recvsync in H. rewrite Hia in H. cbn [negb orb] in H.
+  assert (Eh : a_ib (absm c m) = IS code) by (unfold absm, ib_of; pcbn; rewrite Hib; reflexivity). rewrite Eh in H.
+  rewrite <- (absm_recv_sync c Z code m Hp) in H.
+  destruct (good_parts _ _ _ _ H) as (L' & _).
+  destruct (recv_sync_fields code m) as (Fid & Fph & Fnm & Fs).
+  set (s := if has ASuccess (syncDispatch code) then SSame else src_of false (syncDispatch code)) in *.
+  destruct (probe_ids c m (F m) s Hwc L L') as [Hids Hdk]; try assumption.
+  { rewrite Hp. discriminate. } { unfold F. rewrite Fph. discriminate. }
+  assert (Es : is_zero s = negb (has ASuccess (syncDispatch code)) && is_zero (src_of false (syncDispatch code))).
+  { unfold s. destruct (has ASuccess (syncDispatch code)); reflexivity. }
+  rewrite Es in Hdk.
+  apply (local_same c ms i m F (dk_of (absm c m) (negb (has ASuccess (syncDispatch code)) && is_zero (src_of false (syncDispatch code))) false)
+           true Hinv G L); try assumption.
+  intros m0. apply (recv_sync_fields code m0).
+Qed.
+
+(* ---- LRecv of a JoinGroup reply ---- *)
+Lemma recv_join_fields : forall code g m,
+  let m' := recv_join code g m in
+  m_id m' = idval m (m_focus m) (join_src code) /\ m_ph m' <> PJoinSent /\ m_name m' = m_name m.
+Proof.
+  intros code g m. cbv zeta. unfold recv_join, join_src. destruct (has ARetryJoin (joinRetryDispatch code)).
+  - cbn [m_id m_ph m_name set_ph]. rewrite (react_id true (m_focus m)); [|intros; discriminate].
+    destruct (react_keeps (m_focus m) (joinRetryDispatch code) (set_inbox None m)) as (_ & _ & C & _). rewrite C.
+    destruct (src_of true (joinRetryDispatch code)); repeat split; try reflexivity; discriminate.
+  - destruct (has ASuccess (joinDispatch code)).
+    + repeat split; try reflexivity. discriminate.
+    + cbn [m_id m_ph m_name set_ph]. rewrite (react_id true (m_focus m)); [|intros; discriminate].
+      destruct (react_keeps (m_focus m) (joinDispatch code) (set_inbox None m)) as (_ & _ & C & _). rewrite C.
+      destruct (src_of true (joinDispatch code)); repeat split; try reflexivity; discriminate.
+Qed.
+
+Lemma case_recvjoin : forall c ms i m code g, inv_facts c ms -> getm i ms = Some m -> m_live m = true ->
+  m_ph m = PJoinSent -> m_inbox m = Some (RpJoin code g) ->
+  let F := recv_join code g in
+  inv_facts c (updm i F ms) /\ mu_behaves true (mkS c ms) (mkS c (updm i F ms)).
+Proof.
+  intros c ms i m code g Hinv G L Hp Hib F. get_facts Hinv G. pose proof (wf_c_zfacts c Hwc) as Z.
+  pose proof (use_check pre_recvjoin chk_recvjoin c m ok_recvjoin Hwc L Hwm) as H.
+  assert (P : fin_of pre_recvjoin (absm c m) = true).
+  { unfold fin_of, pre_recvjoin. fold (fin_of pre_wf (absm c m)). rewrite (wf_pre_m _ _ L Hwm). unfold absm, ib_of. pcbn.
+    rewrite Hp, Hib. reflexivity. }
+  specialize (H P). unfold chk_recvjoin in H. rewrite Hia in H. cbn [negb orb] in H.
+  assert (Eh : a_ib (absm c m) = IJ code) by (unfold absm, ib_of; pcbn; rewrite Hib; reflexivity). rewrite Eh in H.
+  rewrite <- (absm_recv_join c Z code g m Hp Hib) in H.
+  destruct (good_parts _ _ _ _ H) as (L' & _). change (a_live (absm c (recv_join code g m))) with (m_live (F m)) in L'.
+  destruct (recv_join_fields code g m) as (Fid & Fph & Fnm). fold F in Fid, Fph, Fnm.
+  assert (Ef : focus_of m = m_focus m) by (unfold focus_of; rewrite Hp; reflexivity).
+  assert (Hb' : forall x, bound (F m) x = (m_id (F m) =? x)).
+  { intros x. unfold bound. rewrite L'. destruct (m_ph (F m)); try congruence; cbn [ph_eqb andb orb]; rewrite orb_false_r; reflexivity. }
+  apply (local_same c ms i m F _ true Hinv G L (fun m0 => proj2 (proj2 (recv_join_fields code g m0))) H).
+  - intros x [Hx Hx']. split; [exact Hx|]. rewrite (focus_of_nj (F m) Fph) in Hx'. destruct Hx' as [Hx'|Hx']; [|congruence].
+    rewrite Fid in Hx'. rewrite Ef. destruct (join_src code); cbn [idval] in Hx'; [left | congruence | right]; assumption.
+  - apply dkc_le; [exact Hwc | exact L | |].
+    + intros Hb. rewrite Hb', Fid in Hb. unfold absm. pcbn. rewrite Ef.
+      destruct (join_src code); cbn [idval] in Hb.
+      * rewrite Nat.eqb_refl in Hb. discriminate.
+      * rewrite (Nat.eqb_sym (m_id m) 0). rewrite Hb. reflexivity.
+      * rewrite Hb. reflexivity.
+    + intros _ Hb. rewrite Hb', Fid in Hb. unfold absm. pcbn. rewrite Ef.
+      destruct (join_src code); cbn [idval] in Hb.
+      * rewrite (Nat.eqb_sym (m_focus m) (m_id m)). rewrite Hb. reflexivity.
+      * reflexivity.
+      * rewrite Nat.eqb_refl in Hb. discriminate.
 Qed.
